@@ -365,7 +365,7 @@ def gen_facade(mods):
 def gen_misc(mods):
     from translate import HEADER, coq_str, const_int, src_of
     lines = [HEADER.format(src="scsi_command.py (init_cdb), scsi.py (attach table), iscsi_device.py (status dispatch)",
-                           extra=" Model.Command")]
+                           extra=" Model.Command Model.Enum")]
     info = {}
     unknown = []
     # ---- SCSICommand.init_cdb: if lo <= opcode.value <= hi: cdb = bytearray(n) | raise ... else: raise
@@ -417,9 +417,62 @@ def gen_misc(mods):
         "(%d, %d, %s)" % (lo, hi, "Some %d%%nat" % n if n is not None else "None") for lo, hi, n in ranges) + "].\n")
     lines.append("Definition init_cdb_else_raises : bool := %s.\n" % ("true" if else_raises else "false"))
     info["init_cdb"] = dict(ranges=ranges, else_raises=else_raises)
+    # ---- Enum.keys: the filter of the list comprehension over vars(cls).items()
+    emod = next(m for m in mods if m.rel.endswith("utils/enum.py"))
+    filt = None
+    for node in ast.walk(emod.tree):
+        if isinstance(node, ast.FunctionDef) and node.name == "keys":
+            for sub in ast.walk(node):
+                if isinstance(sub, ast.ListComp) and len(sub.generators) == 1:
+                    g = sub.generators[0]
+                    it = g.iter
+                    ok_iter = (isinstance(it, ast.Call) and isinstance(it.func, ast.Attribute) and it.func.attr == "items"
+                               and isinstance(it.func.value, ast.Call) and isinstance(it.func.value.func, ast.Name)
+                               and it.func.value.func.id == "vars")
+                    if ok_iter and isinstance(g.target, ast.Tuple) and len(g.target.elts) == 2 \
+                            and isinstance(sub.elt, ast.Name) and sub.elt.id == g.target.elts[0].id:
+                        kname, vname = g.target.elts[0].id, g.target.elts[1].id
+                        conds = [enum_filter(c, kname, vname, emod.text, unknown) for c in g.ifs]
+                        filt = "FTrue"
+                        for c in conds:
+                            filt = c if filt == "FTrue" else "(FAnd %s %s)" % (filt, c)
+    if filt is None:
+        unknown.append("Enum.keys: unrecognised shape")
+        filt = "(FUnknown \"keys\")"
+    lines.append("Definition enum_keys_filter : fexpr := %s.\n" % filt)
+    info["enum_keys_filter"] = filt
     lines.append("Definition unknown_misc : list string := [" + "; ".join(coq_str(u) for u in unknown) + "].\n")
     info["unknown"] = unknown
     return "\n".join(lines), info
+
+
+def enum_filter(t, kname, vname, text, unknown):
+    from translate import coq_str, src_of
+    if isinstance(t, ast.BoolOp):
+        op = "FAnd" if isinstance(t.op, ast.And) else "FOr"
+        acc = enum_filter(t.values[-1], kname, vname, text, unknown)
+        for v in reversed(t.values[:-1]):
+            acc = "(%s %s %s)" % (op, enum_filter(v, kname, vname, text, unknown), acc)
+        return acc
+    if isinstance(t, ast.UnaryOp) and isinstance(t.op, ast.Not):
+        return "(FNot %s)" % enum_filter(t.operand, kname, vname, text, unknown)
+    if isinstance(t, ast.Call) and isinstance(t.func, ast.Name) and t.func.id == "callable" and len(t.args) == 1 \
+            and isinstance(t.args[0], ast.Name) and t.args[0].id == vname:
+        return "FCallable"
+    if isinstance(t, ast.Call) and isinstance(t.func, ast.Attribute) and t.func.attr == "startswith" \
+            and isinstance(t.func.value, ast.Name) and t.func.value.id == kname and len(t.args) == 1 \
+            and isinstance(t.args[0], ast.Constant) and t.args[0].value == "__":
+        return "FDunder"
+    if isinstance(t, ast.Compare) and len(t.ops) == 1 and isinstance(t.comparators[0], ast.Constant) \
+            and t.comparators[0].value == "method" and isinstance(t.left, ast.Attribute) and t.left.attr == "__name__" \
+            and isinstance(t.left.value, ast.Call) and isinstance(t.left.value.func, ast.Name) and t.left.value.func.id == "type" \
+            and len(t.left.value.args) == 1 and isinstance(t.left.value.args[0], ast.Name) and t.left.value.args[0].id == vname:
+        if isinstance(t.ops[0], ast.NotEq):
+            return "(FNot FIsMethod)"
+        if isinstance(t.ops[0], ast.Eq):
+            return "FIsMethod"
+    unknown.append("Enum.keys filter: " + src_of(t, text))
+    return "(FUnknown %s)" % coq_str(src_of(t, text))
 
 
 def branch_action(stmts, retvar):
